@@ -18,7 +18,9 @@ Local Open Scope positive_scope.
 Inductive cmpop := OEq      (* col = const *)
                  | OEqRev   (* const = col *)
                  | OBin     (* any other binary operator between a column and a constant *)
-                 | OBtw.    (* col BETWEEN const AND const *)
+                 | OBtw     (* col BETWEEN const AND const *)
+                 | OIsNull. (* col IS NULL: a conjunct like the others, but never pushed (it does not reject the
+                               NULLs an outer join supplies; repository fix 11250a0) *)
 
 Inductive cond :=
 | CAnd (l r : cond)
@@ -61,8 +63,9 @@ Definition cmp_alias (x : cmp) : positive := snd (fst (fst x)).
 Definition of_alias (a : positive) (l : list cmp) := filter (fun x => Pos.eqb (cmp_alias x) a) l.
 
 (* WHERE comparisons pushed into the fetch of table alias [a] *)
+Definition not_isnull (x : cmp) : bool := match x with (OIsNull, _, _, _) => false | _ => true end.
 Definition pushed (c : cond) (a : positive) : list cmp :=
-  if has_or c then [] else of_alias a (conj_cmps c).
+  if has_or c then [] else filter not_isnull (of_alias a (conj_cmps c)).
 
 (* model arguments: the `col = const` comparisons attributed to the model alias [m], except on
    the predicted column (tgt) *)
@@ -88,7 +91,7 @@ Fixpoint on_blocked (c : cond) : bool :=
   | CNot x => on_blocked x
   | CWrap1 _ b x => b || on_blocked x
   | CWrap2 _ b l r => b || on_blocked l || on_blocked r
-  | CCmp OBin _ _ _ => true
+  | CCmp OBin _ _ _ | CCmp OIsNull _ _ _ => true
   | CCols false _ _ _ _ => true
   | COther _ b => b
   | _ => false
